@@ -59,6 +59,11 @@ func runC02(c *an.Ctx) {
 	n := orderRuleFuncsX(c, cg, fns, c02Table, "order", nil, pathOf, true)
 	c.RequireMin("map-range loops reachable from block execution", n, 15)
 
+	// data invariants behind the comparator-uniqueness table
+	nk := mapKeyedByField(c, "smartcontract/service/native/governance", "PeerPoolItem", "PeerPubkey", fns)
+	nk += mapKeyedByField(c, "smartcontract/service/native/cross_chain/header_sync", "Peer", "PeerPubkey", fns)
+	c.RequireMin("insertions into maps of PeerPoolItem / header_sync Peer", nk, 12)
+
 	// (3) schedule independence
 	conc := 0
 	for _, fn := range fns {
